@@ -8,6 +8,14 @@ hook_commits = subprocess.run(["git", "-C", "/repo", "log", "--format=%H", "--gr
 M_TECH = "symbolic execution of rustc MIR + z3 (SMT over reals), bounded; counterexamples replayed on the native build"
 M_NOTE = " f64 is modelled as exact reals (NaN/inf excluded by assumption; divisors proved non-zero on accepted paths); rounding is outside the claim. Trusted base: rustc MIR dump, the mir2smt interpreter (validated per harness against the real build on sampled vectors), z3."
 CLAIMED = {
+ "C02": dict(
+  text="Bounded symbolic checking of the real code. Engine M executes the MIR of InsertSpeed::insert_speed, min_speed, PathTpc::add_speeds, TrainParams::speed_set_applies and CompareType::applies. Inductive step: for every sorted profile of n points (not necessarily canonical), every restriction starting at/after the first point and every symbolic query position x, the profile after the insertion is <= the restriction's speed wherever the restriction covers x and <= the previous profile everywhere. add_speeds: for symbolic base offset, train length, speed_max, head-end or tail-end sets with 1-2 restrictions and an optional gating parameter of every limit/compare type, the enforced limit is <= each applicable restriction over [start+base, end+base(+train length for tail-end sets)) and never above speed_max; a set that does not apply changes nothing. By induction over the insertion sequence this covers any number of links and restrictions per link.",
+  note="n = 1-3 points quick, 1-5 thorough; 1-2 restrictions per set. Assumes restrictions non-empty (start < end), positive speeds, and the invariant profile <= speed_max, which is re-proved as a post-condition. The hash-map lookup of a speed set by train type (extract_speed_set) and PathTpc::extend's link loop are outside this check (extend composition is part of C06)." + M_NOTE,
+  technique=M_TECH, design_ref="DESIGN.md section 4 (C02)"),
+ "C13": dict(
+  text="Same executions as C02 with the equality: after insert_speed the limit in force at every symbolic position equals min(previous profile, restriction speed where it covers the position), the profile stays sorted, never repeats an offset three times and stays canonical (no equal-valued neighbours) when it was; after add_speeds it equals min(previous profile, all applicable covering restrictions). z3 decides this for every profile of n points, restriction geometry (inside one interval, spanning several points, abutting, same start/end as existing points) and query position.",
+  note="n = 1-3 quick, 1-5 thorough. This check found and a `fix:` commit repaired a genuine defect (restriction strictly inside one interval never restored the outer limit), see known_findings.json. Zero-length restrictions (start == end) are outside the domain: observed to create a triple offset, recorded as an observation in DESIGN.md." + M_NOTE,
+  technique=M_TECH, design_ref="DESIGN.md section 4 (C13)"),
  "C01": dict(
   text="Bounded symbolic checking of the real code. Engine M executes the MIR of the four component step functions, ConventionalLoco/BatteryElectricLoco::solve_energy_consumption and the Locomotive sequence set_pwr_aux; set_cur_pwr_max_out; solve_energy_consumption (what LocomotiveSimulation::solve_step drives) from an arbitrary symbolic pre-state and z3 decides each balance as an identity over all inputs: per-component power balance, every cumulative energy grows by its own power times dt, every hand-off (engine shaft = generator input, generator output = drivetrain input, battery electrical = propulsion + aux), the locomotive ledger fuel/chemical = wheel + dynamic brake + aux + losses, and SOC moves by chemical energy / capacity. One step from an arbitrary state is inductive, so the cumulative ledger follows for every trace prefix.",
   note="Efficiency maps of 2-4 points; battery map 1x2x2 / 1x3x2. At locomotive level the efficiency-map interpolations are replaced by their contracts (result within the map's value range), proved by C08's interp contract harnesses; SOC derating tables are executed exactly. Consist-level roll-ups (pwr_fuel, pwr_reves, energies = sums over units) are not yet covered by a harness (thorough tier planned); HybridLoco and DummyLoco are outside the claim." + M_NOTE,
